@@ -13,7 +13,7 @@ type StepSpec struct {
 	Depends    []string `json:"depends,omitempty"`
 	ContFail   bool     `json:"contFail,omitempty"`
 	ContSkip   bool     `json:"contSkip,omitempty"`
-	Precond    int      `json:"precond,omitempty"`    // 0 none, 1 met, 2 unmet
+	Precond    int      `json:"precond,omitempty"`    // 0 none, 1 met, 2 unmet, 3 [unmet, met], 4 [met, unmet], 5 [met, met, met]
 	RetryLimit int      `json:"retryLimit,omitempty"` // -1: no retryPolicy
 	RetryIvUS  int      `json:"retryIvUS,omitempty"`  // retry interval, microseconds
 	FailFirst  int      `json:"failFirst,omitempty"`  // fail first k attempts, -1 = always
@@ -25,6 +25,29 @@ type StepSpec struct {
 	SignalOn   string   `json:"signalOnStop,omitempty"`
 	OutLen     int      `json:"outLen,omitempty"`
 	ErrLen     int      `json:"errLen,omitempty"`
+	Output     bool     `json:"output,omitempty"` // the step captures its stdout into an output variable
+}
+
+// PrecondUnmet tells whether the step's own preconditions (a list: ALL have to
+// hold) are unmet.
+func (s StepSpec) PrecondUnmet() bool { return s.Precond >= 2 && s.Precond <= 4 }
+
+// Conds is the step's precondition list as (condition, expected) pairs.
+func (s StepSpec) Conds() [][2]string {
+	met, unmet := [2]string{"1", "1"}, [2]string{"0", "1"}
+	switch s.Precond {
+	case 1:
+		return [][2]string{met}
+	case 2:
+		return [][2]string{unmet}
+	case 3:
+		return [][2]string{unmet, met}
+	case 4:
+		return [][2]string{met, unmet}
+	case 5:
+		return [][2]string{met, met, met}
+	}
+	return nil
 }
 
 // HandlerSpec configures one lifecycle handler.
@@ -151,11 +174,17 @@ func Gen(t *rapid.T, o GenOpts) Case {
 		s.ContFail = fl == 1 || fl == 3
 		s.ContSkip = fl == 2 || fl == 3
 		if o.Preconds {
-			switch rapid.IntRange(0, 7).Draw(t, "precond") {
+			switch rapid.IntRange(0, 11).Draw(t, "precond") {
 			case 0:
 				s.Precond = 2
 			case 1:
 				s.Precond = 1
+			case 2:
+				s.Precond = 3
+			case 3:
+				s.Precond = 4
+			case 4:
+				s.Precond = 5
 			}
 		}
 		if o.Retries && rapid.IntRange(0, 2).Draw(t, "hasRetry") == 0 {
@@ -190,6 +219,7 @@ func Gen(t *rapid.T, o GenOpts) Case {
 			s.SignalOn = rapid.SampledFrom([]string{"SIGINT", "SIGHUP", "SIGUSR1", "SIGKILL", "SIGTERM"}).Draw(t, "sosName")
 		}
 		s.OutLen = rapid.SampledFrom([]int{0, 0, 0, 7, 60, 4095, 4096, 4097, 6000}).Draw(t, "outLen")
+		s.Output = rapid.IntRange(0, 3).Draw(t, "output") == 0
 		if s.OutLen > 0 && rapid.Bool().Draw(t, "hasErr") {
 			s.ErrLen = rapid.SampledFrom([]int{5, 300, 4100}).Draw(t, "errLen")
 		}
